@@ -11,14 +11,14 @@ from .escape import CANCELLED, Esc, Src
 
 
 def is_real(s: Src) -> bool:
-    from .rules.c15 import INFEASIBLE, NARROWING_ASSERTS
+    from .rules.c15 import INFEASIBLE, NARROWING_ASSERTS, narrowing_key
 
     if s.tag == "config":
         return False
     if s.cls == "GeneratorExit":
         return False
     construct = s.origin.split("|", 1)[1] if "|" in s.origin else s.origin
-    if s.cls == "AssertionError" and construct in NARROWING_ASSERTS:
+    if s.cls == "AssertionError" and narrowing_key(construct) in NARROWING_ASSERTS:
         return False
     if s.cls in ("TypeError", "RuntimeError", "NotImplementedError") and s.tag == "explicit":
         return False
